@@ -896,6 +896,9 @@ func (c *Compiler) compilePostfix(node *ast.Postfix) error {
 	if !found {
 		return c.formatError(fmt.Sprintf("undefined variable %q", name), node.Token().StartPosition)
 	}
+	if resolution.symbol.IsConstant() {
+		return c.formatError(fmt.Sprintf("cannot assign to constant %q", name), node.Token().StartPosition)
+	}
 	symbolIndex := resolution.symbol.Index()
 	// Push the named variable onto the stack
 	switch resolution.scope {
